@@ -64,10 +64,15 @@ def check(c):
             expected.append(node.index)
             p = node.estimator.predict_proba(Q[r:r + 1])
             nxt = node.above if p[0, 1] > node.threshold else node.below
-            if abs(p[0, 1] - node.threshold) <= 1e-9 and node.above is not None and node.below is not None:
+            if abs(p[0, 1] - node.threshold) <= 1e-9:
                 # tie within rounding: the code evaluates the member classifier on a batch, this harness on one row, and BLAS
-                # may round the two differently (thresholds of 'intercept_sort_always' ARE training probabilities): either child
-                nxt = node.above if path[r, node.above.index] != 0 else node.below
+                # may round the two differently (thresholds of 'intercept_sort_always' ARE training probabilities): either side
+                # is accepted - the side the code took is read off the marks (a missing child on that side ends the path)
+                marked_children = [ch for ch in (node.above, node.below) if ch is not None and path[r, ch.index] != 0]
+                nxt = marked_children[0] if marked_children else None
+                if nxt is None:
+                    # the path the code took ends here; probabilities are then those of this node, up to the same rounding
+                    break
             if nxt is None:
                 break
             node = nxt
